@@ -68,6 +68,10 @@ def corpus():
 
 def make_case(index, rng, tier):
     cp = corpus()
+    grid = httpgen.grid_streams()
+    if len(cp) <= index < len(cp) + len(grid):
+        # the feature-pair grid (see httpgen.grid_streams): every stream under the single-cut and multi-cut sweeps
+        return {"msgs": [b2j(m) for m in grid[index - len(cp)]], "cfg": {}, "every_offset": tier == "thorough"}
     if index < len(cp):
         msgs = [cp[index]]
         if index % 3 == 0:
